@@ -481,12 +481,14 @@ func ruleC11b(c *Ctx) {
 				}
 				h := call.Call.StaticCallee()
 				for k, a := range call.Call.Args {
-					if a != ssa.Value(svc) || k >= len(h.Params) {
+					// the new service itself, or something computed from it (`c.find(service.RootPath())`)
+					sa := exprShape(p, a, isSvc, 0)
+					if !strings.Contains(sa, "§") || k >= len(h.Params) {
 						continue
 					}
 					hp := h.Params[k]
 					if eq := positiveUnderEquality(p, h, func(x, y ssa.Value) bool {
-						a := exprShape(p, x, func(v ssa.Value) bool { return v == ssa.Value(hp) }, 0)
+						a := strings.ReplaceAll(exprShape(p, x, func(v ssa.Value) bool { return v == ssa.Value(hp) }, 0), "§", sa)
 						b := exprShape(p, y, isEach, 0)
 						return a == b && strings.Contains(a, "§") && rootPathShape(a)
 					}); eq != nil {
